@@ -11,6 +11,11 @@
 //                  in one fixed orientation.
 //   flip-history   same, but orientations are mixed (the class in which a stale
 //                  SepPair::flippedRetrieval can matter). Case 0 of the class is the minimal witness.
+//   pair-random    random SepPair field values (also states addSep cannot produce), random
+//                  tglfPrecision 0..6 and gaps k/64: same observations as a table row.
+//   graph-rotate   random Graph with square nodes, routed edges and constraints chosen near the
+//                  actual separations; Graph::rotate90cw / rotate90acw / rotate180 applied; node
+//                  centres, routes and generated constraints before and after.
 //   tglf, tglf-fine  random Graph (nodes, routed edges, SepMatrix) -> Graph::writeTglf ->
 //                  buildGraphFromTglf; "fine" uses values that do not survive the writer's precision.
 // Inputs are printed before the library is called. Doubles are printed with %a.
@@ -76,6 +81,41 @@ static void printCon(vpsc::Constraint *c, const vector<unsigned> &ix2id) {
 }
 
 // ------------------------------------------------------------------------------------------ table
+static void observePair(int row, const SepPair &sp0, SepMatrix &M, bool compose, double SW, double SH, double TW, double TH) {
+    for (int t = 0; t < 8; ++t) {
+        SepPair sp = sp0;
+        applyTf(sp, t);
+        printf("F %d %d", row, t); printFields(sp); printf("\n");
+        std::map<id_type, unsigned> id2ext;
+        printf("W %d %d", row, t);
+        try { string s = sp.writeTglf(id2ext, M); printTglfLines(s); }
+        catch (std::runtime_error &e) { printf(" THROW"); }
+        printf("\n");
+        Rep rep;
+        if (swapsAxes(t)) { rep.add(3, SH, SW); rep.add(8, TH, TW); }
+        else { rep.add(3, SW, SH); rep.add(8, TW, TH); }
+        vpsc::Constraint *cx = sp.generateSeparationConstraint(vpsc::XDIM, rep.cgr, &M, rep.vs);
+        vpsc::Constraint *cy = sp.generateSeparationConstraint(vpsc::YDIM, rep.cgr, &M, rep.vs);
+        printf("C %d %d X", row, t); printCon(cx, rep.ids); printf(" Y"); printCon(cy, rep.ids); printf("\n");
+        delete cx; delete cy;
+        if (compose) {
+            for (int t2 = 0; t2 < 8; ++t2) {
+                SepPair sq = sp;
+                applyTf(sq, t2);
+                printf("G %d %d %d", row, t, t2); printFields(sq); printf("\n");
+            }
+        }
+    }
+    {
+        SepPair sp = sp0;
+        printf("Q %d %d %d %d %d %d", row, (int)sp.isVerticalCardinal(), (int)sp.isHorizontalCardinal(), (int)sp.isVAlign(), (int)sp.isHAlign(), (int)sp.isCardinal());
+        try { CardinalDir d = sp.getCardinalDir(); printf(" %s", CD[(int)d]); } catch (std::runtime_error &e) { printf(" THROW"); }
+        printf("\n");
+        sp.roundGapsUpAbs();
+        printf("R %d %s %s\n", row, hxs(sp.xgap), hxs(sp.ygap));
+    }
+}
+
 static void tableCase(long k, int dir, int st, int gt) {
     vh::beginCase(k, "table");
     const double gaps[4] = {-7.0, -0.0, 0.0, 7.0};
@@ -97,41 +137,45 @@ static void tableCase(long k, int dir, int st, int gt) {
             sp0.addSep(GapType::CENTRE, SepDir::UP, SepType::EQ, 4.0);
         }
         sp0.addSep((GapType)gt, (SepDir)dir, (SepType)st, gaps[gi]);
-        for (int t = 0; t < 8; ++t) {
-            SepPair sp = sp0;
-            applyTf(sp, t);
-            printf("F %d %d", row, t); printFields(sp); printf("\n");
-            std::map<id_type, unsigned> id2ext;
-            printf("W %d %d", row, t);
-            try { string s = sp.writeTglf(id2ext, M); printTglfLines(s); }
-            catch (std::runtime_error &e) { printf(" THROW"); }
-            printf("\n");
-            Rep rep;
-            if (swapsAxes(t)) { rep.add(3, SH, SW); rep.add(8, TH, TW); }
-            else { rep.add(3, SW, SH); rep.add(8, TW, TH); }
-            vpsc::Constraint *cx = sp.generateSeparationConstraint(vpsc::XDIM, rep.cgr, &M, rep.vs);
-            vpsc::Constraint *cy = sp.generateSeparationConstraint(vpsc::YDIM, rep.cgr, &M, rep.vs);
-            printf("C %d %d X", row, t); printCon(cx, rep.ids); printf(" Y"); printCon(cy, rep.ids); printf("\n");
-            delete cx; delete cy;
-            if (ei == 0) {
-                for (int t2 = 0; t2 < 8; ++t2) {
-                    SepPair sq = sp;
-                    applyTf(sq, t2);
-                    printf("G %d %d %d", row, t, t2); printFields(sq); printf("\n");
-                }
-            }
-        }
-        // roundGapsUpAbs / cardinal queries on the untransformed pair
-        {
-            SepPair sp = sp0;
-            printf("Q %d %d %d %d %d %d", row, (int)sp.isVerticalCardinal(), (int)sp.isHorizontalCardinal(), (int)sp.isVAlign(), (int)sp.isHAlign(), (int)sp.isCardinal());
-            try { CardinalDir d = sp.getCardinalDir(); printf(" %s", CD[(int)d]); } catch (std::runtime_error &e) { printf(" THROW"); }
-            printf("\n");
-        }
+        observePair(row, sp0, M, ei == 0, SW, SH, TW, TH);
     }
     // the free functions on SepDir
     printf("D %s %s %d %s %s\n", SD[dir], SD[(int)negateSepDir((SepDir)dir)], (int)sepDirIsCardinal((SepDir)dir),
            SD[(int)lateralWeakening((SepDir)dir)], SD[(int)cardinalStrengthening((SepDir)dir)]);
+    vh::endCase();
+}
+
+
+static void pairRandomCase(long k, uint64_t seed) {
+    vh::Rng r = vh::caseRng(seed, k);
+    vh::beginCase(k, "pair-random");
+    const double SW = 30, SH = 20, TW = 50, TH = 44;
+    printf("sizes %s %s %s %s\n", hxs(SW), hxs(SH), hxs(TW), hxs(TH));
+    printf("ids 3 8\n");
+    for (int row = 0; row < 6; ++row) {
+        auto gap = [&]() -> double {
+            int c = r.range(0, 7);
+            if (c == 0) return 0.0;
+            if (c == 1) return -0.0;
+            double v = (c < 4) ? (double)r.range(1, 30) : (c < 6 ? r.range(1, 2000) / 8.0 : r.range(1, 20000) / 64.0);
+            return r.coin() ? -v : v;
+        };
+        SepPair sp0;
+        sp0.src = 3; sp0.tgt = 8;
+        sp0.xgt = (GapType)r.range(0, 1); sp0.ygt = (GapType)r.range(0, 1);
+        sp0.xst = (SepType)r.range(0, 2); sp0.yst = (SepType)r.range(0, 2);
+        sp0.xgap = gap(); sp0.ygap = gap();
+        if (r.coin(1, 3)) { sp0.xgt = GapType::CENTRE; sp0.xst = SepType::EQ; sp0.xgap = r.coin() ? 0.0 : -0.0; }
+        else if (r.coin(1, 3)) { sp0.ygt = GapType::CENTRE; sp0.yst = SepType::EQ; sp0.ygap = r.coin() ? 0.0 : -0.0; }
+        sp0.tglfPrecision = (unsigned)r.range(0, 6);
+        double extra = r.coin() ? 0.0 : r.range(0, 400) / 64.0;
+        printf("P %d", row); printFields(sp0); printf(" %s %u\n", hxs(extra), sp0.tglfPrecision);
+        fflush(stdout);
+        Graph G;
+        SepMatrix &M = G.getSepMatrix();
+        M.setExtraBdryGap(extra);
+        observePair(row, sp0, M, false, SW, SH, TW, TH);
+    }
     vh::endCase();
 }
 
@@ -293,7 +337,8 @@ static void historyCase(long k, uint64_t seed, bool mixed, long classIndex) {
     vpsc::Variables vs;
     vector<unsigned> ix2id;
     OpGen g(r, mixed, false);
-    bool witness = mixed && classIndex == 0;
+    bool witness2 = mixed && classIndex == 1;       // query-triggered variant
+    bool witness = (mixed && classIndex == 0) || witness2;
     int n = witness ? 2 : r.range(2, 5);
     // ids: increasing, not necessarily dense
     unsigned id = witness ? 0 : r.range(0, 3);
@@ -307,7 +352,19 @@ static void historyCase(long k, uint64_t seed, bool mixed, long classIndex) {
         ix2id.push_back(id); g.ids.push_back(id);
         id += witness ? 1 : r.range(1, 3);
     }
-    if (witness) {
+    if (witness2) {
+        // a read-only query in the reverse orientation leaves the flag set; the next addSep in the
+        // *original* orientation is then stored reversed
+        printf("op 0 addSep 0 1 C EAST INEQ %s\n", hxs(5.0)); fflush(stdout);
+        M.addSep(0, 1, GapType::CENTRE, SepDir::EAST, SepType::INEQ, 5.0); printf("res 0 done\n");
+        dumpState(0, G, M, vs, ix2id);
+        printf("op 1 getCardinalDir 1 0\n"); fflush(stdout);
+        printf("res 1 card %s\n", CD[(int)M.getCardinalDir(1, 0)]);
+        dumpState(1, G, M, vs, ix2id);
+        printf("op 2 addSep 0 1 C EAST INEQ %s\n", hxs(10.0)); fflush(stdout);
+        M.addSep(0, 1, GapType::CENTRE, SepDir::EAST, SepType::INEQ, 10.0); printf("res 2 done\n");
+        dumpState(2, G, M, vs, ix2id);
+    } else if (witness) {
         // minimal history exhibiting the stale-flag behaviour: create the pair via (hi, lo), then
         // address it as (lo, hi)
         printf("op 0 addSep 1 0 C EAST INEQ %s\n", hxs(5.0)); fflush(stdout);
@@ -324,6 +381,86 @@ static void historyCase(long k, uint64_t seed, bool mixed, long classIndex) {
         }
     }
     for (auto v : vs) delete v;
+    vh::endCase();
+}
+
+
+// ------------------------------------------------------------------------------------------ graph-rotate
+static void graphRotateCase(long k, uint64_t seed) {
+    vh::Rng r = vh::caseRng(seed, k);
+    vh::beginCase(k, "graph-rotate");
+    Graph G;
+    int n = r.range(2, 5);
+    vector<Node_SP> nodes;
+    for (int i = 0; i < n; ++i) {
+        double cx = r.range(-400, 400) / 2.0, cy = r.range(-400, 400) / 2.0, w = r.range(1, 40) * 2.0;
+        printf("node %d -1 %s %s %s %s\n", i, hxs(cx), hxs(cy), hxs(w), hxs(w));     // square nodes
+        Node_SP u = Node::allocate(cx, cy, w, w);
+        G.addNode(u); nodes.push_back(u);
+    }
+    int ne = r.range(0, 3);
+    for (int e = 0; e < ne; ++e) {
+        int s = r.range(0, n - 1), t = r.range(0, n - 1);
+        if (s == t) continue;
+        bool dup = false;
+        for (auto &p : G.getEdgeLookup()) {
+            unsigned a = p.second->getSourceEnd()->id(), b = p.second->getTargetEnd()->id();
+            if ((a == nodes[s]->id() && b == nodes[t]->id()) || (a == nodes[t]->id() && b == nodes[s]->id())) dup = true;
+        }
+        if (dup) continue;
+        int np = r.range(1, 4);
+        vector<Avoid::Point> pts;
+        for (int j = 0; j < np; ++j) pts.push_back(Avoid::Point(r.range(-400, 400) / 2.0, r.range(-400, 400) / 2.0));
+        Edge_SP ed = Edge::allocate(nodes[s], nodes[t]);
+        ed->setRoute(pts);
+        G.addEdge(ed);
+    }
+    SepMatrix &M = G.getSepMatrix();
+    if (r.coin(1, 3)) { double e = r.range(0, 16) / 2.0; printf("op 0 setExtraBdryGap %s\n", hxs(e)); M.setExtraBdryGap(e); printf("res 0 done\n"); }
+    int nc = r.range(1, 5);
+    for (int i = 1; i <= nc; ++i) {
+        int a = r.range(0, n - 1), b = r.range(0, n - 1);
+        if (a == b) continue;
+        if (a > b) std::swap(a, b);          // one orientation only: independent of the flag semantics
+        int gt = r.range(0, 1), sd = r.range(0, 7), st = r.range(1, 2);
+        Avoid::Point ca = nodes[a]->getCentre(), cb = nodes[b]->getCentre();
+        double d;
+        switch (sd % 4) { case 0: d = cb.x - ca.x; break; case 1: d = cb.y - ca.y; break; case 2: d = ca.x - cb.x; break; default: d = ca.y - cb.y; }
+        if (gt == 1) d -= (nodes[a]->getDimensions().first + nodes[b]->getDimensions().first) / 2.0 + M.getExtraBdryGap();
+        double gap = d + (double[]){-2.0, 0.0, 0.0, 2.0}[r.range(0, 3)];
+        printf("op %d addSep %d %d %s %s %s %s\n", i, a, b, GT[gt], SD[sd], ST[st], hxs(gap)); fflush(stdout);
+        M.addSep(nodes[a]->id(), nodes[b]->id(), (GapType)gt, (SepDir)sd, (SepType)st, gap);
+        printf("res %d done\n", i);
+    }
+    std::map<unsigned, unsigned> id2index;
+    for (int i = 0; i < n; ++i) id2index[nodes[i]->id()] = i;
+    auto dump = [&](const char *pfx) {
+        for (int i = 0; i < n; ++i) { Avoid::Point c = nodes[i]->getCentre(); printf("%spos %d %s %s\n", pfx, i, hxs(c.x), hxs(c.y)); }
+        for (auto &p : G.getEdgeLookup()) {
+            vector<Avoid::Point> rt = p.second->getRoute();
+            printf("%sroute %zu", pfx, rt.size());
+            for (auto &q : rt) printf(" %s %s", hxs(q.x), hxs(q.y));
+            printf("\n");
+        }
+        ColaGraphRep &cgr = G.updateColaGraphRep();
+        vector<unsigned> ix2idx(cgr.rs.size());
+        for (auto &p : cgr.ix2id) ix2idx[p.first] = id2index[p.second];
+        vpsc::Variables vs;
+        for (size_t i = 0; i < cgr.rs.size(); ++i) vs.push_back(new vpsc::Variable((int)i));
+        for (int d = 0; d < 2; ++d) {
+            vpsc::Constraints cs; vpsc::Rectangles bbs;
+            M.generateSeparationConstraints(d == 0 ? vpsc::XDIM : vpsc::YDIM, vs, cs, bbs);
+            printf("%s%s %zu", pfx, d == 0 ? "cx" : "cy", cs.size());
+            for (auto c : cs) { printCon(c, ix2idx); delete c; }
+            printf("\n");
+        }
+        for (auto v : vs) delete v;
+    };
+    dump("b");
+    int which = r.range(1, 3);       // 1 = rotate90cw, 2 = rotate90acw, 3 = rotate180 (transform indices)
+    printf("rotate %d\n", which); fflush(stdout);
+    if (which == 1) G.rotate90cw(); else if (which == 2) G.rotate90acw(); else G.rotate180();
+    dump("a");
     vh::endCase();
 }
 
@@ -495,14 +632,18 @@ int main(int argc, char **argv) {
     // exhaustive table (independent of the seed)
     for (int dir = 0; dir < 8; ++dir) for (int st = 0; st < 3; ++st) for (int gt = 0; gt < 2; ++gt, ++k)
         if (a.want(k)) tableCase(k, dir, st, gt);
-    long nOriented = (thorough ? 4000 : 400) * a.scale;
-    long nMixed = (thorough ? 2000 : 200) * a.scale;
-    long nTglf = (thorough ? 2000 : 200) * a.scale;
-    long nFine = (thorough ? 600 : 60) * a.scale;
-    if (a.n >= 0) { nOriented = a.n; nMixed = a.n / 2; nTglf = a.n / 2; nFine = a.n / 4; }
+    long nOriented = (thorough ? 40000 : 2000) * a.scale;
+    long nMixed = (thorough ? 10000 : 500) * a.scale;
+    long nTglf = (thorough ? 20000 : 1000) * a.scale;
+    long nFine = (thorough ? 6000 : 300) * a.scale;
+    long nPair = (thorough ? 10000 : 500) * a.scale;
+    long nRot = (thorough ? 10000 : 500) * a.scale;
+    if (a.n >= 0) { nOriented = a.n; nMixed = a.n / 2; nTglf = a.n / 2; nFine = a.n / 4; nPair = a.n / 4; nRot = a.n / 4; }
     for (long i = 0; i < nOriented; ++i, ++k) if (a.want(k)) historyCase(k, a.seed, false, i);
     for (long i = 0; i < nMixed; ++i, ++k) if (a.want(k)) historyCase(k, a.seed, true, i);
     for (long i = 0; i < nTglf; ++i, ++k) if (a.want(k)) tglfCase(k, a.seed, false);
     for (long i = 0; i < nFine; ++i, ++k) if (a.want(k)) tglfCase(k, a.seed, true);
+    for (long i = 0; i < nPair; ++i, ++k) if (a.want(k)) pairRandomCase(k, a.seed);
+    for (long i = 0; i < nRot; ++i, ++k) if (a.want(k)) graphRotateCase(k, a.seed);
     return 0;
 }
